@@ -3,6 +3,7 @@
 From Coq Require Import Strings.String Floats.SpecFloat.
 Require Import Model.Base Model.Syntax Model.F64 Model.Lexer Model.Builder Model.Value Model.Context
                Model.Builtins Model.Eval Model.Iter Model.Interface Model.Script Model.InterfaceGen Model.Display Model.ValueApi.
+Require Import Spec.IterMut.
 Require Extraction.
 Require Import ExtrOcamlBasic.
 Extraction Language OCaml.
@@ -16,5 +17,6 @@ Extraction "model.ml"
   iter_all iter_identifiers iter_variable_identifiers iter_read_variable_identifiers
   iter_write_variable_identifiers iter_function_identifiers rename_with
   ident_any ident_var ident_read ident_write ident_fn
+  iter_mut_idents iter_mut_positions iter_mut_run
   builtin_function
   Z.of_N Z.to_N N.of_nat Z.add Z.mul Z.opp Z.of_nat Z.compare N.add N.mul N.compare Z.div_eucl.
